@@ -75,6 +75,9 @@ KINDS = {
     "str-substring-inside-wide-char": ([("decl", "s", None, S("a\U0001f600b"), ())], ("decl", "v", None, ("mcall", V("s"), "substring", [("bin", "+", V("a"), I(2)), ("bin", "+", V("a"), I(2))]), ())),
     "str-delete-start-inside-char": ([("decl", "s", None, S("h\u00e9llo"), ())], ("decl", "v", None, ("mcall", V("s"), "delete", [("bin", "+", V("a"), I(1)), I(4)]), ())),
     "str-delete-inside-wide-char": ([("decl", "s", None, S("a\U0001f600b"), ())], ("decl", "v", None, ("mcall", V("s"), "delete", [I(0), ("bin", "+", V("a"), I(3))]), ())),
+    # bounds in the WRONG ORDER (both inside the string, both on character boundaries)
+    "str-substring-reversed": ([("decl", "s", None, S("hello world"), ())], ("decl", "v", None, ("mcall", V("s"), "substring", [("bin", "+", V("a"), I(6)), ("bin", "+", V("a"), I(1))]), ())),
+    "str-delete-reversed": ([("decl", "s", None, S("hello world"), ())], ("decl", "v", None, ("mcall", V("s"), "delete", [("bin", "+", V("a"), I(6)), ("bin", "+", V("a"), I(1))]), ())),
     "shift-amount": ([], ("decl", "v", None, ("bin", "<<", V("a"), ("bin", "+", V("a"), I(40))), ())),
     "str-substring-range": ([("decl", "s", None, S("abc"), ())], ("decl", "v", None, ("mcall", V("s"), "substring", [I(1), ("bin", "+", V("a"), I(8))]), ())),
     "str-insert-range": ([("decl", "s", None, S("abc"), ())], ("decl", "v", None, ("mcall", V("s"), "insert", [S("x"), ("bin", "+", V("a"), I(8))]), ())),
@@ -96,7 +99,7 @@ KINDS = {
     "list-remove": ([("decl", "l", ("list", "int"), ("list", [I(1)]), ())], ("decl", "v", None, ("mcall", V("l"), "remove", [("bin", "+", V("a"), I(5))]), ())),
 }
 # failures raised INSIDE a built-in method: the innermost entry of the trace is the native frame of that built-in
-NATIVE = {"str-insert-inside-char": "StrInsert", "str-insert-inside-wide-char": "StrInsert", "str-substring-end-inside-char": "StrSubstring", "str-substring-start-inside-char": "StrSubstring",
+NATIVE = {"str-substring-reversed": "StrSubstring", "str-delete-reversed": "StrDelete", "str-insert-inside-char": "StrInsert", "str-insert-inside-wide-char": "StrInsert", "str-substring-end-inside-char": "StrSubstring", "str-substring-start-inside-char": "StrSubstring",
           "str-substring-inside-wide-char": "StrSubstring", "str-delete-start-inside-char": "StrDelete", "str-delete-inside-wide-char": "StrDelete",
           "parse-radix-one": "StrParseIntRadix", "parse-radix-zero": "StrParseIntRadix", "parse-radix-negative": "StrParseIntRadix", "parse-radix-37": "StrParseIntRadix",
           "parse-bigint-radix-one": "StrParseBigintRadix", "parse-bigint-radix-zero": "StrParseBigintRadix", "parse-bigint-radix-37": "StrParseBigintRadix",
